@@ -292,6 +292,9 @@ def _power(x, n, *a, **k):
     return x**n
 
 
+LINALG_STUBS: dict = {}  # contract stubs for eigh / eigvalsh / eig / eigvals (callee contracts)
+
+
 class _Linalg:
     det = staticmethod(_linalg_det)
     inv = staticmethod(_linalg_inv)
@@ -299,6 +302,8 @@ class _Linalg:
     solve = staticmethod(_linalg_solve)
 
     def __getattr__(s, n):
+        if n in LINALG_STUBS:
+            return LINALG_STUBS[n]
         return getattr(_np.linalg, n)
 
 
